@@ -125,4 +125,24 @@ BENIGN = [
         return Ok(());
     }
     Err(HpkeError::IncorrectInputLength(expected_len, given_len))""")]),
+    dict(name='b-x25519-write-exact-guard-removed', props=['C12'],
+         edits=[(X25519, """    // Dalek lets us convert pubkeys to [u8; 32]
+    fn write_exact(&self, buf: &mut [u8]) {
+        // Check the length is correct and panic if not
+        enforce_outbuf_len::<Self>(buf);
+""", """    // Dalek lets us convert pubkeys to [u8; 32]
+    fn write_exact(&self, buf: &mut [u8]) {
+""")]),
+    dict(name='b-tag-guard-outputsize-form', props=['C12'],
+         edits=[(AEAD, "        enforce_equal_len(Self::size(), encoded.len())?;", "        enforce_equal_len(<Self::OutputSize as generic_array::typenum::Unsigned>::to_usize(), encoded.len())?;")]),
+    dict(name='b-nist-write-exact-guards-removed', props=['C12'],
+         edits=[(NIST, """                    enforce_outbuf_len::<Self>(buf);
+
+                    // Get the uncompressed pubkey encoding""", """                    // Get the uncompressed pubkey encoding"""),
+                (NIST, """                    enforce_outbuf_len::<Self>(buf);
+
+                    // SecretKeys already know how to convert to bytes""", """                    // SecretKeys already know how to convert to bytes"""),
+                (NIST, """                    enforce_outbuf_len::<Self>(buf);
+
+                    // elliptic_curve::ecdh::SharedSecret::raw_secret_bytes returns the serialized""", """                    // elliptic_curve::ecdh::SharedSecret::raw_secret_bytes returns the serialized""")]),
 ]
